@@ -204,7 +204,7 @@ func c32WireGrain(s c32GrainSpec) *internalpb.Grain {
 var c32RoleSets = [][]string{nil, {"a"}, {"b"}, {"a", "b"}}
 
 func c32GenTarget(rng *rand.Rand, roleSets [][]string, loads []int) c32TargetSpec {
-	return c32TargetSpec{Roles: roleSets[rng.Intn(len(roleSets))], Load: loads[rng.Intn(len(loads))]}
+	return c32TargetSpec{Roles: c32Shuffled(rng, roleSets[rng.Intn(len(roleSets))]), Load: loads[rng.Intn(len(loads))]}
 }
 
 // c32GenSmall draws one point of the bounded small space of the design: <=4 actors x
@@ -635,6 +635,18 @@ func c32Eval(r *verifrt.Run, env *c32Env, c *c32CaseSpec) c32Obs {
 	return obs
 }
 
+// c32Shuffled returns the role set in a random order: a peer's role list is
+// built from a set in production, so the planning code must not depend on it
+// being sorted.
+func c32Shuffled(rng *rand.Rand, roles []string) []string {
+	if len(roles) < 2 {
+		return roles
+	}
+	out := append([]string(nil), roles...)
+	rng.Shuffle(len(out), func(i, j int) { out[i], out[j] = out[j], out[i] })
+	return out
+}
+
 func c32Has(roles []string, role string) bool {
 	for _, r := range roles {
 		if r == role {
@@ -767,7 +779,7 @@ func c32GenRedist(rng *rand.Rand, large bool) *c32RedistSpec {
 	c.Leader = roleSets[rng.Intn(len(roleSets))]
 	np := 1 + rng.Intn(maxP)
 	for i := 0; i < np; i++ {
-		c.Peers = append(c.Peers, c32TargetSpec{Roles: roleSets[rng.Intn(len(roleSets))]})
+		c.Peers = append(c.Peers, c32TargetSpec{Roles: c32Shuffled(rng, roleSets[rng.Intn(len(roleSets))])})
 	}
 	c.Failed = rng.Intn(np)
 	na := rng.Intn(maxA + 1)
@@ -974,7 +986,7 @@ func c32EvalShare(r *verifrt.Run, rng *rand.Rand, idx int) (nontrivial bool) {
 	np := 2 + rng.Intn(4)
 	specs := make([]c32TargetSpec, np)
 	for i := range specs {
-		specs[i] = c32TargetSpec{Roles: roleSets[rng.Intn(len(roleSets))]}
+		specs[i] = c32TargetSpec{Roles: c32Shuffled(rng, roleSets[rng.Intn(len(roleSets))])}
 	}
 	peers := c32BuildPeers(specs)
 	failedIdx := rng.Intn(np)
